@@ -69,3 +69,98 @@ M("neg_c02_rename_local_and_reorder", ["C02"], [], [
         let tail_len = new_layout.size() - old_layout.size();
         let tail = new_ptr.cast::<u8>().add(old_size);
         tail.write_bytes(0, tail_len);""")], negative=True)
+
+# ---------------------------------------------------------------- C01
+M("c01_grow_up_drop_is_last", ["C01"], ["C01.R3"], [
+    ("src/allocator_impl.rs", "if is_last(bump, old_ptr, old_layout) & align_fits(old_ptr, old_layout, new_layout) {",
+     "if align_fits(old_ptr, old_layout, new_layout) {")])
+M("c01_grow_up_drop_align_fits", ["C01"], ["C01.R3"], [
+    ("src/allocator_impl.rs", "if is_last(bump, old_ptr, old_layout) & align_fits(old_ptr, old_layout, new_layout) {",
+     "if is_last(bump, old_ptr, old_layout) {")])
+M("c01_walk_without_reset", ["C01"], ["C01.R4"], [
+    ("src/raw_bump.rs", """                    // We don't reset the chunk position when we leave a scope, so we need to do it here.
+                    chunk.reset();
+""", "")])
+M("c01_prepare_moves_position", ["C01"], ["C01.R2"], [
+    ("src/raw_bump.rs", """        // SAFETY: allocations never succeed for a dummy chunk
+        unsafe {
+            let chunk = self.as_non_dummy_unchecked();
+            Some(chunk.content_ptr_from_addr(ptr))
+        }
+    }
+
+    /// Returns the rest of the capacity of the chunk.""", """        // SAFETY: allocations never succeed for a dummy chunk
+        unsafe {
+            let chunk = self.as_non_dummy_unchecked();
+            chunk.set_pos_addr(ptr);
+            Some(chunk.content_ptr_from_addr(ptr))
+        }
+    }
+
+    /// Returns the rest of the capacity of the chunk.""")])
+M("c01_alloc_down_forgets_position", ["C01"], ["C01.R2"], [
+    ("src/raw_bump.rs", """            unsafe {
+                let chunk = self.as_non_dummy_unchecked();
+                chunk.set_pos_addr(ptr);
+                Some(chunk.content_ptr_from_addr(ptr))
+            }
+        }
+    }
+
+    /// Prepares allocation""", """            unsafe {
+                let chunk = self.as_non_dummy_unchecked();
+                if props_is_zero_sized { chunk.set_pos_addr(ptr); }
+                Some(chunk.content_ptr_from_addr(ptr))
+            }
+        }
+    }
+
+    /// Prepares allocation"""),
+    ("src/raw_bump.rs", """        let props = self.bump_props(layout);
+
+        if S::UP {
+            let BumpUp { new_pos, ptr } = bump_up(props)?;""", """        let props = self.bump_props(layout);
+        let props_is_zero_sized = props.layout.size() == 0;
+
+        if S::UP {
+            let BumpUp { new_pos, ptr } = bump_up(props)?;""")])
+M("c01_deallocate_without_is_last", ["C01"], ["C01.R3"], [
+    ("src/allocator_impl.rs", """        if is_last(bump, ptr, layout) {
+            deallocate_assume_last(bump, ptr, layout);
+        }""", """        if layout.size() != 0 {
+            deallocate_assume_last(bump, ptr, layout);
+        }""")])
+M("c01_shrink_slice_is_last_against_stale", ["C01"], ["C01.R3"], [
+    ("src/traits/bump_allocator_typed.rs", """            // if that's not the last allocation, there is nothing we can do
+            if !is_last {
+                return None;
+            }""", """            // if that's not the last allocation, there is nothing we can do
+            if !is_last && new_len != 0 {
+                return None;
+            }""")])
+M("c01_new_raw_position_writer", ["C01"], ["C01.R1"], [
+    ("src/raw_bump.rs", """    #[inline(always)]
+    pub(crate) fn reclaim(&self, claimant: &RawBump<A, S>) {
+        self.chunk.set(claimant.chunk.get());
+    }""", """    #[inline(always)]
+    pub(crate) fn reclaim(&self, claimant: &RawBump<A, S>) {
+        self.chunk.set(claimant.chunk.get());
+        if let Some(chunk) = self.chunk.get().as_non_dummy() {
+            unsafe { chunk.header.as_ref().pos.set(chunk.pos()) };
+        }
+    }""")])
+M("c01_append_before_walk_exhausted", ["C01"], ["C01.R4"], [
+    ("src/raw_bump.rs", """                while let Some(next_chunk) = chunk.next() {
+                    chunk = next_chunk;
+
+                    // We don't reset""", """                while let Some(next_chunk) = chunk.next() {
+                    if layout.size() > next_chunk.capacity() { break; }
+                    chunk = next_chunk;
+
+                    // We don't reset""")])
+M("neg_c01_reorder_independent", ["C01"], [], [
+    ("src/raw_bump.rs", """                    chunk.reset();
+
+                    self.chunk.set(chunk.raw);""", """                    self.chunk.set(chunk.raw);
+
+                    chunk.reset();""")], negative=True)
